@@ -143,5 +143,12 @@ func NewValueObject(fields map[string]*Value) *Value {
 }
 
 func (self ValueObject) IntoAnyObject() *Value {
-	return NewValueAnyObject(self.FieldsInternal)
+	// The any-object gets a field table and field cells of its own: what is set on it later (`set` with a value of
+	// any type, new keys) must not show through the object, whose fields keep their static types.
+	fields := make(map[string]*Value, len(self.FieldsInternal))
+	for key, field := range self.FieldsInternal {
+		owned := *field
+		fields[key] = &owned
+	}
+	return NewValueAnyObject(fields)
 }
